@@ -906,6 +906,7 @@ class Gen:
             prev = pos
         segs.append(("src", body[prev:], prev))
         # emit
+        body_first_line = len(self.out) + 1
         pending = ""     # partial source line not yet emitted
         pend_byte = None
         for seg in segs:
@@ -957,6 +958,7 @@ class Gen:
                 self.clauses[cid]["tags"] = sorted(fn_tags)
         self.fns.append({"qual": qual, "module": modpath, "start": start, "end": len(self.out), "auto": fs.auto if fs else [],
                          "tags": sorted(fn_tags), "src": "%s:%d" % (sf.rel, sf.line_of(b0)), "has_body": True, "clauses": clause_ids,
+                         "body_line": body_first_line,
                          "external_body": bool(fs and any("external_body" in a for a in fs.attrs))})
 
     @staticmethod
@@ -1405,15 +1407,10 @@ def make_cover(g, text):
     for f in g.fns:
         if not f.get("has_body") or f.get("external_body") or ":macro" in f.get("src", ""):
             continue
-        # the body's `{` : first line in [start,end] that (after the signature/clauses) ends with `{`
-        for ln in range(f["start"], f["end"] + 1):
-            l = lines[ln - 1]
-            if l.rstrip().endswith("//@g") or l.startswith("//@item-"):
-                continue
-            # crude: body opens at the first line whose stripped text ends with "{" and where paren depth is 0
-            if l.rstrip().endswith("{"):
-                ins.append((ln, f["qual"]))
-                break
+        # the generated line that holds the body's opening brace
+        bl = f.get("body_line")
+        if bl and lines[bl - 1].lstrip().startswith("{"):
+            ins.append((bl, f["qual"]))
     for ln, q in sorted(ins, reverse=True):
         lines.insert(ln, "        assert(false); //@cover %s" % q)
     return "\n".join(lines)
